@@ -512,6 +512,9 @@ func runC09Second(c *Ctx) {
 						continue
 					}
 					body := loopBody(h)
+					if body[al.Block()] {
+						continue // declared inside the loop body: a fresh variable per iteration
+					}
 					changed := false
 					for _, st := range storesTo(al) {
 						if body[st.Block()] {
